@@ -4,9 +4,11 @@ package core
 
 // C12 correspondence harness (injected into package core by overlay).
 //
-// A history drives the real Core.doAPIConfig* functions on a Core that has only the configuration plumbing
-// alive (conf pointer + silent logger) and commits like Core.run does (`p.conf.Store(newConf)` in place of
-// reloadConf, which would restart the servers).
+// A history runs against a REAL Core started with core.New on a YAML file (every server disabled, so that no
+// port is opened; logger, auth manager, path manager, conf watcher alive).  Each edit goes the way an API request
+// goes: decode the body like the handler, then Core.APIConfig*Patch/Add/… → channel → Core.run →
+// doAPIConfig* → reloadConf.  A no-op request is sent afterwards as a barrier (run answers before it reloads).
+// The generator keeps a scratch Core of its own (doAPIConfig* + Store) only to know which names exist.
 //
 // ops (names and JSON bodies are hex)
 //   reset <dochex> <dep0> <G:k=v … D:k=v … O:n:+ O:n:k=v … P:n:+ P:n:k=v …>
@@ -379,31 +381,98 @@ func verifC12Do(p *Core, f []string) string {
 	return "bad-op"
 }
 
+var verifC12Real *Core
+
+func verifC12Stop() {
+	if verifC12Real != nil {
+		verifC12Real.Close()
+		verifC12Real = nil
+	}
+}
+
+func verifC12ConfFile() string {
+	return filepath.Join(os.TempDir(), fmt.Sprintf("verif-c12-core-%d.yml", os.Getpid()))
+}
+
+// one API edit through the running Core, the way the HTTP handler does it
+func verifC12DoReal(p *Core, f []string) string {
+	var err error
+	switch f[0] {
+	case "gpatch":
+		c, derr := verifC12DecodeGlobal(verifutil.UnHex(f[1]))
+		if derr != nil {
+			return "dec-err"
+		}
+		err = p.APIConfigGlobalPatch(c)
+	case "dpatch":
+		c, derr := verifC12DecodePath(verifutil.UnHex(f[1]))
+		if derr != nil {
+			return "dec-err"
+		}
+		err = p.APIConfigPathDefaultsPatch(c)
+	case "add", "patch", "replace":
+		name := verifutil.UnHexS(f[1])
+		c, derr := verifC12DecodePath(verifutil.UnHex(f[2]))
+		if derr != nil {
+			return "dec-err"
+		}
+		switch f[0] {
+		case "add":
+			err = p.APIConfigPathsAdd(name, c)
+		case "patch":
+			err = p.APIConfigPathsPatch(name, c)
+		default:
+			err = p.APIConfigPathsReplace(name, c)
+		}
+	case "delete":
+		err = p.APIConfigPathsDelete(verifutil.UnHexS(f[1]))
+	default:
+		return "bad-op"
+	}
+	if err != nil && err.Error() == "terminated" {
+		return "core-terminated"
+	}
+	// Core.run answers the request and only then reloads: wait until it takes the next request
+	if berr := p.APIConfigPathsDelete("\x00verif-barrier"); berr != nil && berr.Error() == "terminated" {
+		return "core-terminated"
+	}
+	return verifC12Classify(err)
+}
+
 func verifC12Exec(op string) string {
 	f := strings.Fields(op)
 	if f[0] == "reset" {
-		c, err := verifC12Load(verifutil.UnHex(f[1]))
+		verifC12Stop()
+		doc := verifutil.UnHex(f[1])
+		c, err := verifC12Load(doc)
 		if err != nil {
 			return "initial-document-rejected"
 		}
-		p, err := verifC12NewCore(c)
-		if err != nil {
-			return "logger"
+		fp := verifC12ConfFile()
+		if err = os.WriteFile(fp, doc, 0o600); err != nil {
+			return "conf-file"
 		}
+		p, ok := New([]string{fp})
+		if !ok {
+			return "core-did-not-start"
+		}
+		verifC12Real = p
 		verifC12Core = p
 		verifC12DepNow = f[2] == "1"
-		verifC12Prev = verifC12Snapshot(c)
-		full := strings.Join(verifC12Diff(verifC12Empty(), verifC12Prev), " ")
-		if full != strings.Join(f[3:], " ") {
+		verifC12Prev = verifC12Snapshot(p.conf.Load())
+		if strings.Join(verifC12Diff(verifC12Empty(), verifC12Snapshot(c)), " ") != strings.Join(f[3:], " ") {
 			return "snapshot-not-reproducible"
+		}
+		if len(verifC12Diff(verifC12Snapshot(c), verifC12Prev)) != 0 {
+			return "core-started-with-another-configuration"
 		}
 		return "ok"
 	}
 	if strings.Contains(f[len(f)-1], "!") {
 		verifC12DepNow = true
 	}
-	res := verifC12Do(verifC12Core, f)
-	if res == "bad-op" {
+	res := verifC12DoReal(verifC12Core, f)
+	if res == "bad-op" || res == "core-terminated" {
 		return res
 	}
 	ans := verifC12Answer(res)
@@ -436,10 +505,28 @@ func verifC12Body(kvs []verifC12KV) []byte {
 var verifC12StrPool = []string{`""`, `"a"`, `"x y"`, `":8554"`, `"/bin/true"`, `"server.key"`, `"éü"`}
 
 // candidate JSON values for a field of the given Go type (valid for the decoder most of the time)
+// The histories run on a real Core: values are chosen so that no server is started, nothing is dialled outside
+// 127.0.0.1:9 (discard; refused at once), no hook runs anything but `true`, nothing is recorded.
+var verifC12ServerSwitch = map[string]bool{"api": true, "rtsp": true, "rtmp": true, "hls": true, "webrtc": true, "srt": true,
+	"moq": true, "metrics": true, "pprof": true, "playback": true, "alwaysAvailable": true, "dumpPackets": true}
+
 func verifC12ValueFor(r *verifutil.Rand, key string, t reflect.Type, cur string) string {
+	if verifC12ServerSwitch[key] {
+		return "false"
+	}
+	if strings.HasSuffix(key, "Disable") && t.String() == "bool" {
+		return "true"
+	}
+	if strings.HasPrefix(key, "runOn") && t.String() == "string" {
+		return r.Pick(`""`, `"true"`)
+	}
 	switch key {
+	case "logLevel":
+		return r.Pick(`"error"`, `"warn"`)
+	case "logDestinations":
+		return `["stdout"]`
 	case "source":
-		return r.Pick(`"publisher"`, `"rtsp://10.0.0.1:8554/s"`, `"rtmp://h/app/s"`, `"redirect"`, `"bogus"`, `"udp://239.0.0.1:1234"`, `"rpiCamera"`, `"http://h/s.m3u8"`)
+		return r.Pick(`"publisher"`, `"publisher"`, `"rtsp://127.0.0.1:9/s"`, `"rtmp://127.0.0.1:9/app/s"`, `"redirect"`, `"bogus"`)
 	case "sourceRedirect":
 		return r.Pick(`""`, `"rtsp://h/other"`, `"/other"`)
 	case "recordPath":
@@ -465,7 +552,9 @@ func verifC12ValueFor(r *verifutil.Rand, key string, t reflect.Type, cur string)
 	case "forward":
 		return r.Pick(`[]`, `[{"dest":"rtmp://h/x"}]`, `[{"dest":""}]`, `[{"dest":"ftp://h/x"}]`)
 	case "rtspUDPSourcePortRange":
-		return r.Pick(`[32768,60999]`, `[1000,2000]`, `[5]`)
+		// not `[5]`: a range of length != 2 passes Validate and makes the rtsp static source index out of range
+		// (staticsources/rtsp/source.go) — the process dies; found by this harness, reported, not C12's subject
+		return r.Pick(`[32768,60999]`, `[1000,2000]`)
 	case "rpiCameraAWBGains":
 		return r.Pick(`[0,0]`, `[1.5,2]`, `[1]`)
 	}
@@ -615,8 +704,23 @@ func verifC12PickName(r *verifutil.Rand, existing []string) string {
 	return verifC12Names[r.Intn(len(verifC12Names))]
 }
 
+// YAML text, the way a user writes mediamtx.yml: every server off; some paths with a null body (`cam1:`)
 func verifC12InitialDoc(r *verifutil.Rand, allowDep bool) []byte {
-	var paths []string
+	var sb strings.Builder
+	sb.WriteString("logLevel: error\n")
+	for _, k := range []string{"api", "rtsp", "rtmp", "hls", "webrtc", "srt", "moq", "metrics", "pprof", "playback"} {
+		fmt.Fprintf(&sb, "%s: no\n", k)
+	}
+	if r.Chance(1, 3) {
+		sb.WriteString("readTimeout: 20s\n")
+	}
+	if allowDep && r.Chance(1, 3) {
+		sb.WriteString("readBufferCount: 1024\n")
+	}
+	if r.Chance(1, 3) {
+		sb.WriteString("pathDefaults:\n  maxReaders: 7\n  recordDeleteAfter: 48h\n")
+	}
+	sb.WriteString("paths:\n")
 	used := map[string]bool{}
 	for i, n := 0, 1+r.Intn(4); i < n; i++ {
 		nm := verifC12Names[r.Intn(7)]
@@ -624,32 +728,24 @@ func verifC12InitialDoc(r *verifutil.Rand, allowDep bool) []byte {
 			continue
 		}
 		used[nm] = true
-		var kv []string
-		switch r.Intn(5) {
+		fmt.Fprintf(&sb, "  %q:\n", nm)
+		switch r.Intn(7) {
 		case 0:
-			kv = append(kv, `"source":"rtsp://10.0.0.1/s"`, `"sourceOnDemand":true`)
+			sb.WriteString("    source: rtsp://127.0.0.1:9/s\n    sourceOnDemand: yes\n")
 		case 1:
-			kv = append(kv, `"record":true`)
+			sb.WriteString("    record: yes\n")
 		case 2:
-			kv = append(kv, `"maxReaders":5`, `"runOnReadRestart":true`)
+			sb.WriteString("    maxReaders: 5\n    runOnReadRestart: yes\n")
+		case 3:
+			sb.WriteString("    maxReaders: 0\n") // explicit, equal to the default
+		default:
+			// null body: OptionalPaths[name] is a nil entry until Validate fills it
 		}
 		if allowDep && r.Chance(1, 3) {
-			kv = append(kv, `"publishUser":"u1"`, `"publishPass":"pw1"`)
+			sb.WriteString("    publishUser: u1\n    publishPass: pw1\n")
 		}
-		paths = append(paths, fmt.Sprintf("%q:{%s}", nm, strings.Join(kv, ",")))
 	}
-	var glob []string
-	if r.Chance(1, 3) {
-		glob = append(glob, `"logLevel":"debug"`)
-	}
-	if r.Chance(1, 3) {
-		glob = append(glob, `"pathDefaults":{"maxReaders":7,"recordDeleteAfter":"48h"}`)
-	}
-	if allowDep && r.Chance(1, 3) {
-		glob = append(glob, `"readBufferCount":1024`)
-	}
-	glob = append(glob, `"paths":{`+strings.Join(paths, ",")+`}`)
-	return []byte("{" + strings.Join(glob, ",") + "}")
+	return []byte(sb.String())
 }
 
 func verifC12Gen(r *verifutil.Rand, i int, thorough bool) []string {
@@ -696,8 +792,61 @@ func verifC12Gen(r *verifutil.Rand, i int, thorough bool) []string {
 	if thorough {
 		n = 3 + r.Intn(38)
 	}
+	// explicit-equals-inherited scenario: set a field of an existing path explicitly to the value the path shows
+	// right now, then change that field in the path defaults (A), or drop it again with an empty REPLACE first (B):
+	// the accepted edits change which fields are explicit although the derived path does not change
+	echoKeys := []string{"maxReaders", "record", "overridePublisher", "rtspAnyPort", "sourceOnDemandStartTimeout", "recordDeleteAfter", "runOnReadRestart"}
+	byKey := map[string]verifC12Field{}
+	for _, f := range verifC12PFields {
+		byKey[f.key] = f
+	}
+	pathOp := func(kind, name string, kvs []verifC12KV) {
+		body := verifC12Body(kvs)
+		var intended []string
+		for _, e := range kvs {
+			intended = append(intended, e.k)
+		}
+		if intended == nil {
+			intended = []string{}
+		}
+		cc, err := verifC12DecodePath(body)
+		if kind == "dpatch" {
+			emit(fmt.Sprintf("dpatch %s %s", verifutil.Hex(body), verifC12Oracle("p", cc.Values, err, intended)))
+		} else {
+			emit(fmt.Sprintf("%s %s %s %s", kind, verifutil.HexS(name), verifutil.Hex(body), verifC12Oracle("p", cc.Values, err, intended)))
+		}
+	}
+	echo := func() {
+		if len(names) == 0 {
+			return
+		}
+		name := names[r.Intn(len(names))]
+		key := echoKeys[r.Intn(len(echoKeys))]
+		cur := verifC12Snapshot(scratch.conf.Load())
+		shown, ok := cur.p[name][key]
+		if !ok {
+			return
+		}
+		curv := string(verifutil.UnHex(shown))
+		other := curv
+		for t := 0; t < 8 && other == curv; t++ {
+			other = verifC12ValueFor(r, key, byKey[key].typ, cur.d[key])
+		}
+		pathOp(r.Pick("patch", "patch", "replace"), name, []verifC12KV{{key, curv}})
+		if r.Bool() {
+			pathOp("replace", name, nil) // B: drop the explicit value again
+		}
+		pathOp("dpatch", "", []verifC12KV{{key, other}})
+		if r.Chance(1, 3) {
+			pathOp("patch", name, []verifC12KV{{key, other}})
+			pathOp("dpatch", "", []verifC12KV{{key, curv}})
+		}
+	}
+
 	for j := 0; j < n; j++ {
-		switch k := r.Intn(20); {
+		switch k := r.Intn(22); {
+		case k >= 20:
+			echo()
 		case k < 3:
 			body, intended := verifC12GenBody(r, verifC12GFields, verifC12PopularGlobal, snap.g, allowDep)
 			cc, err := verifC12DecodeGlobal(body)
@@ -729,8 +878,12 @@ func verifC12Gen(r *verifutil.Rand, i int, thorough bool) []string {
 }
 
 func TestVerifC12(t *testing.T) {
+	defer func() {
+		verifC12Stop()
+		os.Remove(verifC12ConfFile())
+	}()
 	verifutil.Main(t, &verifutil.Harness{
-		ID: "C12", Exec: verifC12Exec, Gen: verifC12Gen, Quick: 250, Thorough: 6000,
+		ID: "C12", Exec: verifC12Exec, Gen: verifC12Gen, Quick: 150, Thorough: 3000,
 		Class: func(op, impl string) string {
 			w := op
 			if i := strings.IndexByte(op, ' '); i >= 0 {
